@@ -387,4 +387,15 @@ theorem walkFields_same : ∀ (fs : List AV) (rl : List Rg) (ts : List AV), Same
     rfl
 end
 
+mutual
+/-- every value agrees with itself -/
+theorem same_refl : ∀ v, Same v v
+  | .mk ty k isn p e cms nl pl en kids => by
+    simp only [Same, AV.ty, AV.isNil, AV.payload, AV.kids, posValid, AV.pos]
+    refine ⟨?_, ?_, ?_, ?_, sameL_refl kids⟩ <;> simp
+theorem sameL_refl : ∀ vs, SameL vs vs
+  | [] => trivial
+  | v :: vs => ⟨same_refl v, sameL_refl vs⟩
+end
+
 end Gopatch.AD
